@@ -44,4 +44,13 @@ macro_rules! sendonly {
     $l
   };
 }
+macro_rules! two_c {
+  ($flag:expr, $l:expr, $t:expr) => {
+    if $flag {
+      cbx($t)
+    } else {
+      cbx($l)
+    }
+  };
+}
 include!("build_body.rs");
